@@ -248,7 +248,7 @@ def tlc(spec, cfg, name=None, workers=4, timeout=600, env=None, simulate=None, d
     name = name or os.path.splitext(os.path.basename(cfg))[0]
     md = workdir("tlc-" + name)
     cmd = ["timeout", str(timeout), "java", "-XX:+UseParallelGC", "-Xmx" + xmx, "-cp", TLA_JAR, "tlc2.TLC",
-           "-workers", str(workers), "-metadir", md, "-config", cfg]
+           "-workers", str(workers), "-metadir", md, "-noGenerateSpecTE", "-config", cfg]
     if not deadlock:
         cmd += ["-deadlock"]
     if simulate:
